@@ -204,3 +204,19 @@ func C15History(seed int64) (*dmlgen.History, map[string]*Table) {
 	}
 	return h, initial
 }
+
+// NewPlaced starts the fresh-value counter at `start` (families generated elsewhere in a history must not
+// collide with each other).
+func NewPlaced(r *rand.Rand, start int) *Placed { return &Placed{R: r, ctr: start} }
+
+// Insertable lists the columns an INSERT may name (not the generated ones).
+func Insertable(t *Table) []int { return insertable(t) }
+
+// FreshRows returns m VALUES tuples of fresh values for the columns cols.
+func (p *Placed) FreshRows(t *Table, cols []int, m int) [][]Cell {
+	var rows [][]Cell
+	for i := 0; i < m; i++ {
+		rows = append(rows, p.freshRow(t, cols))
+	}
+	return rows
+}
